@@ -197,9 +197,13 @@ class Session:
                 obs.exc = exc
         finally:
             os.chdir(cwd)
-        st = os.stat(self.path)
-        obs.disk = self.path.read_bytes()
-        obs.wrote = st.st_mtime_ns != OLD_NS or st.st_ino != ino
+        if self.path.exists():
+            st = os.stat(self.path)
+            obs.disk = self.path.read_bytes()
+            obs.wrote = st.st_mtime_ns != OLD_NS or st.st_ino != ino
+        else:
+            obs.disk = None     # the run ended without the testcase file being there at all
+            obs.wrote = True
         obs.count = self.lith.test_count
         obs.total = self.lith.test_total
         tmpdir = self.lith.temp_dir
